@@ -6,8 +6,8 @@
    emits for arithmetic, moves, literals and comparisons is encodable (sign-extended 32-bit
    immediates and displacements, `mov r64, imm64` for wide literals, no `imul [mem], reg`) for all
    operands the generic code generator can pass (fresh target).
-   CHECKED, not proved: label uniqueness / definedness and external symbols (Sem/X86Wf.asm_wf on the
-   implementation's output of every program of the run), and acceptance of the printed text by GNU
+   CHECKED (round 1; label uniqueness / definedness are PROVED in round 2, end of this file): labels and
+   external symbols (Sem/X86Wf.asm_wf on the implementation's output of every program of the run), and acceptance of the printed text by GNU
    as (native step).  The label-collision defect found by this check was repaired (fix: fd7ddb1). *)
 From Coq Require Import List ZArith NArith String Bool.
 From SCC Require Import Lang.AxSyn Model.Backend Model.X86 Sem.X86Sem Sem.X86Wf Proof.X86Wf Proof.X86Consts Generated.Constants.
